@@ -13,6 +13,7 @@ import (
 	"encoding/json"
 	"fmt"
 	goos "os"
+	"os/user"
 	"path/filepath"
 	"runtime/debug"
 	"sort"
@@ -46,6 +47,8 @@ type Out struct {
 	Real     []string          `json:"real,omitempty"`   // real-OS canary findings
 	RealPid  int               `json:"real_pid"`
 	RealHost string            `json:"real_host"`
+	RealUser string            `json:"real_user"`
+	RealHome string            `json:"real_home"`
 	Harness  string            `json:"harness,omitempty"` // harness-side problem (inconclusive)
 }
 
@@ -297,6 +300,9 @@ func worker(kind string, data json.RawMessage) any {
 	initWorker(id)
 	out := &Out{B: ws.b, RealPid: goos.Getpid()}
 	out.RealHost, _ = goos.Hostname()
+	if u, err := user.Current(); err == nil {
+		out.RealUser, out.RealHome = u.Username, u.HomeDir
+	}
 	if ws.initErr != "" {
 		out.Harness = ws.initErr
 		return out
@@ -332,11 +338,15 @@ func runCase(c *CaseData, out *Out) {
 		defer dcancel()
 		ctx = dctx
 	}
+	var supplied ros.OS = rec
+	if c.Ctx == "bare-vos" {
+		supplied = ros.NewVirtualOS(base)
+	}
 	switch c.Route {
 	case "withos":
-		opts = append(opts, risor.WithOS(rec))
+		opts = append(opts, risor.WithOS(supplied))
 	case "ctx":
-		ctx = ros.WithOS(ctx, rec)
+		ctx = ros.WithOS(ctx, supplied)
 	default:
 		out.Harness = "unknown route " + c.Route
 		return
